@@ -1,1 +1,26 @@
-From QV Require Import Base Fields SrcFacts Msg SrcDecisions Sim Prober Hostname Provider ProviderSpec.
+(* Properties_C13.v — a provider withdraws or replaces everything it stops serving. *)
+From QV Require Import Base Fields SrcFacts Msg SrcDecisions Sim Prober Hostname Provider ProviderSpec ProviderProofs.
+Local Open Scope Z_scope.
+
+(* PARTIAL.  Proved: farewell() multicasts exactly the currently published PTR, SRV and TXT with TTL 0; a completed
+   probe of an already confirmed provider says that goodbye BEFORE announcing the replacement; the SRV and TXT
+   proposals of a new provider carry the cache-flush bit.  The listener statement (a passive RFC 6762 cache holds
+   exactly the served records once activity has stopped, nothing after destruction; no change of name, type or SRV
+   target without a goodbye) is enforced on every run by the acceptor (codes 40, 41, 42); its proof is not yet written. *)
+Theorem C13_farewell_withdraws_partial p :
+  snd (farewell p) = [ESendAll (add_record (set_ttl 0 (pv_txt p)) (add_record (set_ttl 0 (pv_srv p))
+                        (add_record (set_ttl 0 (pv_ptr p)) (set_response true default_message))))].
+Proof. exact (farewell_withdraws p). Qed.
+Print Assumptions C13_farewell_withdraws_partial.
+
+Theorem C13_goodbye_before_replacement_partial name p :
+  pv_confirmed p = true ->
+  exists bye ann, snd (on_name_confirmed name p) = [ESendAll bye; ESendAll ann] /\
+    m_records bye = [set_ttl 0 (pv_ptr p); set_ttl 0 (pv_srv p); set_ttl 0 (pv_txt p)] /\
+    m_records ann = [set_target name (pv_ptrP p); set_name name (pv_srvP p); set_name name (pv_txtP p)].
+Proof. exact (name_confirmed_withdraws_first name p). Qed.
+Print Assumptions C13_goodbye_before_replacement_partial.
+
+Theorem C13_unique_records_flush_partial : r_flush (pv_srvP prov_new) = true /\ r_flush (pv_txtP prov_new) = true.
+Proof. split; reflexivity. Qed.
+Print Assumptions C13_unique_records_flush_partial.
